@@ -437,6 +437,10 @@ CfListApplied(r, plan, cflist) ==
          IN IF \E c \in 0..71 : MaskBit(mask, c) THEN [plan EXCEPT !.mask = mask] ELSE plan
     ELSE plan
 
+\* a fixed plan's CFList (type 1) that enables at least one channel (an all-zero mask is ignored)
+CfListMaskGiven(r, cflist) ==
+    IsFixed(r) /\ cflist # <<>> /\ cflist[16] = 1 /\ \E c \in 0..71 : MaskBit(SubSeq(cflist, 1, 9), c)
+
 AfterJoinAccept(m, ja, nwk, app) ==
     LET r == m.region
         off == (ja.dlSettings \div 16) % 8
@@ -449,7 +453,8 @@ AfterJoinAccept(m, ja, nwk, app) ==
                  !.cfg.rx2dr = IF DrDefined(r, rx2) THEN rx2 ELSE m.cfg.rx2dr,
                  !.plan = CfListApplied(r, m.plan, ja.cflist),
                  \* (fixed plans: a channel mask in the CFList ends the join bias)
-                 !.jw.n = IF IsFixed(r) /\ CfListApplied(r, m.plan, ja.cflist) # m.plan THEN 0 ELSE @]
+                 \* (also when it repeats the mask in force: what ends the bias is that the network sent a usable mask)
+                 !.jw.n = IF CfListMaskGiven(r, ja.cflist) THEN 0 ELSE @]
 
 \* ------------------------------------------------------------------ application setters
 AfterSetAdr(m, on) == [m EXCEPT !.cfg.adr = on, !.sess.adrCnt = IF on \/ ~Joined(m) THEN m.sess.adrCnt ELSE AdrZero]
